@@ -163,8 +163,11 @@ class ModelMixin3:
             self.hook('list-append', st, node, list=recv, value=v)
             if le.kind == 'lit' and st.frame.loops == 0 and False:
                 pass
+            notin = isinstance(v, Ref) and ('notin', v.sym, recv.sym) in st.facts
+            distinct = le.distinct and notin
+            st.facts = {f for f in st.facts if not (f[0] == 'notin' and f[2] == recv.sym)}
             if le.kind == 'lit' and not self._in_loop(st):
-                st.put(recv.sym, replace(le, items=le.items + (v,), lo=le.lo + 1, hi=le.hi + 1))
+                st.put(recv.sym, replace(le, items=le.items + (v,), lo=le.lo + 1, hi=le.hi + 1, distinct=distinct))
                 return [(NoneV(), st)]
             # accumulating list: keep distinct templates
             items = list(le.items)
@@ -174,7 +177,7 @@ class ModelMixin3:
                 items.append(v)
                 owned.append(self.reachable(v, st, le.born))
             hi = None if le.hi is None else le.hi + 1
-            st.put(recv.sym, replace(le, kind='accum', items=tuple(items), owned=tuple(owned), lo=min(le.lo + 1, 2), hi=None if self._in_loop(st) else hi))
+            st.put(recv.sym, replace(le, kind='accum', items=tuple(items), owned=tuple(owned), lo=min(le.lo + 1, 2), hi=None if self._in_loop(st) else hi, distinct=distinct))
             return [(NoneV(), st)]
         if name == 'extend':
             st.put(recv.sym, replace(le, kind='accum', hi=None))
